@@ -3,6 +3,7 @@ import json
 import os
 
 from harness import engine_cf as ecf
+from harness import engine_nb as enb
 from harness.common import Machinery
 
 CF_LPS = ["eg", "ucb1", "softmax", "pop", "ts", "random"]
@@ -127,6 +128,7 @@ def c08(report):
     report.nontrivial_rule = "edges after which arms / keys / result shapes were checked; non-trivial = follows an arm change"
     jobs = cf_jobs(CF_LPS, report.tier, report.seed, ops=FULL_OPS | {"warm_start"})
     ecf.run_jobs(report, jobs, by_clause("shape", "state.keys", "state.arms"))
+    nb_side(report, ("shape", "trace.post.arms", "trace.Inv_C08", "predict.exception"))
     _nontrivial_from_counts(report, "cf.queries")
 
 
@@ -135,6 +137,7 @@ def c09(report):
     jobs = cf_jobs(CF_LPS, report.tier, report.seed, over=dict(QueryRows={0, 1, 3}))
     jobs += cf_jobs(["eg"], report.tier, report.seed, bfs=False, tag="-eps", eps=0.5, over=dict(QueryRows={0, 1, 3}))
     ecf.run_jobs(report, jobs, by_clause("argmax", "result.arm"))
+    nb_side(report, ("argmax", "nonhood"), lps=("eg", "ucb1", "ts", "softmax"))
     _nontrivial_from_counts(report, "cf.queries")
 
 
@@ -142,6 +145,7 @@ def c10(report):
     report.nontrivial_rule = "query edges after which the deep snapshot of the bandit (minus random streams) was compared"
     jobs = cf_jobs(CF_LPS, report.tier, report.seed, ops=FULL_OPS | {"warm_start"}, over=dict(QueryRows={0, 1, 3}))
     ecf.run_jobs(report, jobs, by_clause("readonly"))
+    nb_side(report, ("readonly",))
     _nontrivial_from_counts(report, "cf.queries")
 
 
@@ -199,6 +203,104 @@ def c19(report):
     _nontrivial_from_counts(report, "cf.clones")
 
 
+# ---------------------------------------------------------------------------
+# neighbourhood policies (Nbhd.tla + TraceNbhd.tla)
+NB_VARIANTS = {
+    "radius": [dict(metric="cityblock", radius=(2, 1), dims=2),
+               dict(metric="euclidean", radius=(1, 1), dims=2, labelmap="str", unit="1/4"),
+               dict(metric="chebyshev", radius=(1, 1), dims=3, no_nhood=[1.0, 0.0]),
+               dict(metric="sqeuclidean", radius=(2, 1), dims=2, grid=4, labelmap="float"),
+               dict(metric="cityblock", radius=(1, 2), dims=1, grid=5, no_nhood=[0.0, 1.0])],
+    "knearest": [dict(metric="cityblock", k=2, dims=2), dict(metric="euclidean", k=3, dims=2, labelmap="str"),
+                 dict(metric="chebyshev", k=1, dims=1, grid=4, unit="1/4"),
+                 dict(metric="sqeuclidean", k=3, dims=3, labelmap="float")],
+    "lsh": [dict(n_tables=2, n_dims=2, dims=2), dict(n_tables=1, n_dims=1, dims=1, labelmap="str"),
+            dict(n_tables=3, n_dims=3, dims=3, unit="1/4", n_jobs=2, backend="threading"),
+            dict(n_tables=2, n_dims=2, dims=2, n_jobs=3, backend="threading", no_nhood=[0.0, 1.0], seed=5)],
+    "clusters": [dict(n_clusters=2, dims=2), dict(n_clusters=3, dims=2, grid=4, labelmap="str"),
+                 dict(n_clusters=2, minibatch=True, dims=1, grid=5, unit="1/4")],
+    "tree": [dict(dims=2), dict(tree_params={"max_depth": 1}, dims=2, labelmap="str"),
+             dict(tree_params={"min_samples_leaf": 2}, dims=1, grid=5, unit="1/4")],
+}
+
+
+def nb_variants(tier, seed, nps):
+    out = {}
+    for np_ in nps:
+        pool = NB_VARIANTS[np_]
+        out[np_] = pool if tier == "thorough" else [pool[(seed + i) % len(pool)] for i in range(min(2, len(pool)))]
+    return out
+
+
+NB_TRACE = ("trace.", "result.nbhd", "nonhood", "predict.exception")
+
+
+def nb_filter(nps, *prefixes):
+    def keep(finding):
+        return finding.get("binding", {}).get("np") in nps and any(finding["clause"].startswith(p) for p in prefixes)
+    return keep
+
+
+def c03(report):
+    report.nontrivial_rule = ("recorded Radius/KNearest executions validated by TraceNbhd.tla; non-trivial = queries whose "
+                              "result was compared with the TLC-computed documented neighbourhood")
+    nps = ["radius", "knearest"]
+    for np_ in nps:
+        enb.exhaustive(report, np_, report.tier)
+    lps = ["eg", "ucb1", "ts", "softmax"] if report.tier == "thorough" else ["eg", "ucb1", ["ts", "softmax", "pop"][report.seed % 3]]
+    jobs = enb.jobs_for(nps, lps, report.tier, report.seed, nb_variants(report.tier, report.seed, nps))
+    enb.run_jobs(report, jobs, nb_filter(nps, *NB_TRACE))
+    _nb_counts(report)
+    report.assumptions += ["contexts are integer grid points and radii rationals so that boundary membership is exact",
+                           "for KNearest any tie-valid k-set is accepted (the set of allowed results is computed by TLC)"]
+
+
+def c11(report):
+    report.nontrivial_rule = ("recorded LSHNearest executions validated by TraceNbhd.tla (tables, offsets, collision sets); "
+                              "non-trivial = queries compared with the TLC-computed collision set")
+    enb.exhaustive(report, "lsh", report.tier)
+    if report.tier == "thorough" or report.seed % 2:
+        enb.negative(report, "lsh", "LshNoOffset", "Inv_C11_Tables")
+    if report.tier == "thorough" or not report.seed % 2:
+        enb.negative(report, "lsh", "LshKeepTables", "Prop_C07_FitIsFresh|Inv_C11_Tables")
+    lps = ["eg", "ucb1", "ts"] if report.tier == "thorough" else ["eg", ["ucb1", "ts"][report.seed % 2]]
+    jobs = enb.jobs_for(["lsh"], lps, report.tier, report.seed, nb_variants(report.tier, report.seed, ["lsh"]),
+                        n=60 if report.tier == "thorough" else 16)
+    enb.run_jobs(report, jobs, nb_filter(["lsh"], *NB_TRACE))
+    _nb_counts(report)
+    report.assumptions += ["signatures are recomputed by the harness from mab._imp.table_to_plane with the documented formula "
+                           "sum_i 2^i [x.p_i > 0]; TLC checks they are a function of the context between two fits"]
+
+
+def c12(report):
+    report.nontrivial_rule = ("recorded Clusters/TreeBandit executions validated by TraceNbhd.tla (cells from the fitted "
+                              "sklearn objects, leaf bookkeeping); non-trivial = queries compared with the TLC oracle")
+    nps = ["clusters", "tree"]
+    for np_ in nps:
+        enb.exhaustive(report, np_, report.tier)
+    lps = ["eg", "ucb1", "ts"] if report.tier == "thorough" else ["eg", "ucb1"]
+    jobs = enb.jobs_for(nps, lps, report.tier, report.seed, nb_variants(report.tier, report.seed, nps))
+    enb.run_jobs(report, jobs, nb_filter(nps, *NB_TRACE))
+    _nb_counts(report)
+    report.assumptions += ["k-means and CART fitting are scikit-learn's; the specification takes the cell / leaf of every row "
+                           "and query from the fitted objects (kmeans.labels_, kmeans.predict, tree.apply)"]
+
+
+def nb_side(report, prefixes, lps=("eg", "ucb1", "ts")):
+    """Neighbourhood coverage for the cross-cutting properties (shape, argmax, read-only)."""
+    nps = ["radius", "knearest", "lsh", "clusters", "tree"]
+    pick = list(lps) if report.tier == "thorough" else [lps[report.seed % len(lps)]]
+    jobs = enb.jobs_for(nps, pick, report.tier, report.seed,
+                        {k: [v[report.seed % len(v)]] for k, v in NB_VARIANTS.items()} if report.tier == "quick"
+                        else NB_VARIANTS, n=30 if report.tier == "thorough" else 8)
+    enb.run_jobs(report, jobs, lambda f: any(f["clause"].startswith(p) for p in prefixes))
+
+
+def _nb_counts(report):
+    report.evaluations = report.replayed + report.coverage.get("nb.events", 0)
+    report.nontrivial = set(range(report.coverage.get("nb.queries_compared_with_tlc_oracle", 0)))
+
+
 def _nontrivial_from_counts(report, key=None):
     # distinct non-trivial cases are counted by the replay engine per job (distinct spec states / edges)
     n = report.coverage.get(key, 0) if key else report.coverage.get("cf.states", 0)
@@ -206,7 +308,7 @@ def _nontrivial_from_counts(report, key=None):
     report.evaluations = report.replayed
 
 
-CHECKS = {"C01": c01, "C06": c06, "C07": c07, "C08": c08, "C09": c09, "C10": c10, "C13": c13, "C14": c14,
+CHECKS = {"C01": c01, "C03": c03, "C11": c11, "C12": c12, "C06": c06, "C07": c07, "C08": c08, "C09": c09, "C10": c10, "C13": c13, "C14": c14,
           "C17": c17, "C19": c19}
 
 
